@@ -454,7 +454,25 @@ impl<T: FromPrimitive> FromPrimitive for Counted<T> {
     }
 }
 
-trait HElem: Ord + Copy + std::fmt::Debug + FromPrimitive + Zero + num_traits::NumOps + Elem + Send + Sync {
+impl<T: num_traits::ToPrimitive> num_traits::ToPrimitive for Counted<T> {
+    fn to_i64(&self) -> Option<i64> {
+        self.0.to_i64()
+    }
+    fn to_u64(&self) -> Option<u64> {
+        self.0.to_u64()
+    }
+    fn to_f64(&self) -> Option<f64> {
+        self.0.to_f64()
+    }
+    fn to_i128(&self) -> Option<i128> {
+        self.0.to_i128()
+    }
+    fn to_u128(&self) -> Option<u128> {
+        self.0.to_u128()
+    }
+}
+
+trait HElem: Ord + Copy + std::fmt::Debug + FromPrimitive + num_traits::ToPrimitive + Zero + num_traits::NumOps + Elem + Send + Sync {
     const FLOAT: bool;
     fn f(&self) -> f64;
     /// exact value for integer types (geometry of integer bins is judged exactly)
@@ -484,7 +502,7 @@ trait Strat: BinsBuildingStrategy {
 }
 macro_rules! strat {
     ($s:ident) => {
-        impl<T: Ord + Clone + FromPrimitive + num_traits::NumOps + Zero> Strat for $s<T> {
+        impl<T: Ord + Clone + FromPrimitive + num_traits::ToPrimitive + num_traits::NumOps + Zero> Strat for $s<T> {
             fn width(&self) -> T {
                 self.bin_width()
             }
@@ -649,6 +667,12 @@ fn c12_one<T: HElem, S: Strat<Elem = T>, SC: Strat<Elem = Counted<T>>>(acc: &mut
         acc.violation("last_edge", None, cj(format!("last edge {} exceeds the maximum {} by more than one bin width {}", last.show(), mxv.show(), w.show())));
         return false;
     }
+    // the discrete form of "ends above the maximum by at most one bin width": the maximum lies in the LAST bin
+    // (the edge before the last one is not above the maximum)
+    if separable && bins.index_of(&mxv) != Some(nbins - 1) {
+        acc.violation("last_edge", None, cj(format!("the data maximum {} falls into bin {:?} of {}: the last bin [{}, {}) lies entirely above it", mxv.show(), bins.index_of(&mxv), nbins, bins.index(nbins - 1).start.show(), last.show())));
+        return false;
+    }
     if separable {
         for i in 0..nbins {
             let r = bins.index(i);
@@ -727,7 +751,10 @@ fn c12_grid<T: HElem, S: Strat<Elem = T>>(acc: &mut Acc, cols: &[Vec<T>], rng: &
 }
 
 fn gen_data<T: HElem>(rng: &mut Rng, n: usize, class: usize) -> (Vec<T>, &'static str) {
-    let fi = |x: i64| T::from_i64(x).unwrap();
+    // values that do not fit a narrow element type (u16) are folded back into its range
+    // a narrow element type (u16) keeps its data in 0..20000 so that max + 2*range stays representable (in scope)
+    let narrow = T::from_i64(70_000).is_none();
+    let fi = |x: i64| T::from_i64(if narrow { x.rem_euclid(20_000) } else { x }).unwrap();
     if T::FLOAT {
         let ff = |x: f64| T::from_f64(x).unwrap();
         match class % 14 {
@@ -769,10 +796,13 @@ fn gen_data<T: HElem>(rng: &mut Rng, n: usize, class: usize) -> (Vec<T>, &'stati
                 // 64-bit data spanning a large part of the type; max + range (>= any bin width) and twice the range stay
                 // representable, as the property requires
                 if T::from_i64(6_000_000_000_000_000_000).is_some() && T::from_usize(usize::MAX).is_none() {
-                    if rng.chance(0.5) {
+                    if n >= 10 && rng.chance(0.5) {
+                        // with >= 10 observations every prescribed width is at most a third of the range
+                        ((0..n).map(|_| fi((rng.unit() * 6.0e18) as i64)).collect(), "i64 in [0, 6e18], n >= 10")
+                    } else if rng.chance(0.5) {
                         ((0..n).map(|_| fi((rng.unit() * 3.0e18) as i64)).collect(), "i64 in [0, 3e18]")
                     } else {
-                        ((0..n).map(|_| fi(((rng.unit() - 0.5) * 4.0e18) as i64)).collect(), "i64 in [-2e18, 2e18]")
+                        ((0..n).map(|_| fi(((rng.unit() - 0.5) * 3.0e18) as i64)).collect(), "i64 in [-1.5e18, 1.5e18]")
                     }
                 } else {
                     ((0..n).map(|_| fi(off + rng.range(0, 20_000))).collect(), "range 2e4")
@@ -800,9 +830,17 @@ fn c12_case<T: HElem>(rng: &mut Rng, acc: &mut Acc, thorough: bool) {
     ok &= c12_one::<T, Sqrt<T>, Sqrt<Counted<T>>>(acc, &data, cname, false);
     ok &= c12_one::<T, Rice<T>, Rice<Counted<T>>>(acc, &data, cname, false);
     ok &= c12_one::<T, Sturges<T>, Sturges<Counted<T>>>(acc, &data, cname, false);
-    ok &= c12_one::<T, FreedmanDiaconis<T>, FreedmanDiaconis<Counted<T>>>(acc, &data, cname, false);
-    ok &= c12_one::<T, Auto<T>, Auto<Counted<T>>>(acc, &data, cname, false);
-    if ok && n >= 2 && !SKIPPED.with(|s| s.get()) {
+    // data spanning most of i64: with >= 10 observations the prescribed widths of Sqrt / Rice / Sturges are at most a
+    // third of the range (max + width representable: in scope), but the Freedman-Diaconis width 2*IQR/n^(1/3) may not
+    // be (and 2*IQR itself may overflow): outside the property's scope, not judged
+    let fd_in_scope = !cname.starts_with("i64 in [0, 6e18]");
+    if fd_in_scope {
+        ok &= c12_one::<T, FreedmanDiaconis<T>, FreedmanDiaconis<Counted<T>>>(acc, &data, cname, false);
+        ok &= c12_one::<T, Auto<T>, Auto<Counted<T>>>(acc, &data, cname, false);
+    } else {
+        acc.count("fd_auto_out_of_scope_skipped");
+    }
+    if ok && n >= 2 && fd_in_scope && !SKIPPED.with(|s| s.get()) {
         // every column is a rearrangement of the judged data set (same bins per axis, termination already
         // established under the step budget), so the bare-type grid build below cannot hang
         let d = 1 + rng.below(3);
@@ -1012,8 +1050,8 @@ fn main() {
     if prop == "C12" {
         // Freedman-Diaconis / Auto on short one-decimal lattices with mixed signs: range / width lands within an ulp of
         // an integer for a small fraction of these sets
-        r.section("fd_decimal_lattice", r.args.n(60_000, 1_500_000), |_k, rng, acc| {
-            let n = *rng.pick(&[8usize, 8, 8, 7, 9, 12, 16]);
+        r.section("fd_decimal_lattice", r.args.n(200_000, 3_000_000), |_k, rng, acc| {
+            let n = *rng.pick(&[8usize, 8, 8, 8, 8, 7, 9, 12]);
             let data: Vec<N64> = (0..n).map(|_| n64(rng.range(-300, 300) as f64 / 10.0)).collect();
             SKIPPED.with(|s| s.set(false));
             c12_one::<N64, FreedmanDiaconis<N64>, FreedmanDiaconis<Counted<N64>>>(acc, &data, "one-decimal lattice, mixed signs", false);
